@@ -228,7 +228,7 @@ def _run(pid, tier, seed, replay, nshards, build_arg, t0):
         "excluded_known": dict(excl),
         "builds": kinds,
         "regression_replays": n_reg,
-        "inconclusive": inconclusive,
+        "inconclusive": [{"sub": i_["sub"], "reason": i_["reason"]} for i_ in inconclusive],
         "shards": nshards,
     }
     if ex_results is not None:
@@ -258,6 +258,16 @@ def _run(pid, tier, seed, replay, nshards, build_arg, t0):
         "%s tier=%s seed=%d builds=%s evaluations=%d distinct_nontrivial=%d discarded=%d excluded_known=%d wall=%.1fs"
         % (pid, tier, seed, ",".join(kinds), ev, coverage["distinct_nontrivial"], sum(discards.values()), sum(excl.values()), time.time() - t0)
     )
+    if inconclusive:
+        os.makedirs(os.path.join(out_dir(), "replays", pid), exist_ok=True)
+        for n_, inc in enumerate(inconclusive[:5]):
+            ip = os.path.join(out_dir(), "replays", pid, "timeout_%d.json" % n_)
+            with open(ip, "w") as fh:
+                json.dump({"property": pid, "sub": inc["sub"], "message": inc["reason"], "signature": "timeout", "spec": inc["spec"]}, fh, indent=1, sort_keys=True, default=str)
+            print("INCONCLUSIVE property=%s %s: %s (spec: %s)" % (pid, inc["sub"], inc["reason"], ip))
+        if not violations:
+            print("HARNESS-ERROR property=%s %d case(s) exceeded the per-case time limit; not a verdict" % (pid, len(inconclusive)))
+            return 2
     if floor_msgs:
         print("HARNESS-ERROR property=%s generator self-check: %s" % (pid, "; ".join(floor_msgs)))
         if not violations:
